@@ -274,6 +274,9 @@ def gen_history(seed, mode, thorough, hashseed):
         # the caller keeps one options mapping per option set and hands the same object to
         # every compilation of the history that uses these options
         ops.append(["share_options", True])
+    if rng.random() < 0.25:
+        # the caller's options mapping is equal to get_options()'s, with another insertion order
+        ops.append(["permute_options", rng.randrange(1, 9)])
     # prefix: unrelated creations / churn / option calls.  Some counts are chosen so that UFL's
     # global counters cross 9 -> 10 or 99 -> 100 inside the request (names such as w_9 / w_10
     # compare differently as strings and as numbers)
@@ -818,6 +821,8 @@ def history_stats(scn, res):
                 st["probe_earlier_compile_rejected"] += 1
         elif op[0] == "share_options":
             st["probe_histories_sharing_options_mapping"] += 1
+        elif op[0] == "permute_options":
+            st["probe_histories_with_permuted_options_mapping"] += 1
         elif op[0] == "reform":
             slot_req[op[2]] = slot_req.get(op[1], "mass_p1_interval")
             st["probe_reform"] += 1
